@@ -28,6 +28,8 @@ type World struct {
 	FuncList  []*ssa.Function          // repo functions, sorted by key
 	CS        *Contracts
 	TPkgs     map[string]*types.Package // package name -> types package (repo + imports)
+	cmpCache  map[string]bool
+	frozen    map[string]bool
 	implCache map[string][]types.Type
 	allNamed  []types.Type
 	LoadErrs  []string
@@ -285,7 +287,64 @@ func (w *World) stableArr(a string) bool {
 	return w.stable[a]
 }
 
+func (w *World) frozenArr(a string) bool {
+	if w.frozen == nil {
+		w.frozen = map[string]bool{}
+		for _, td := range w.CS.Types {
+			for _, f := range td.Frozen {
+				w.frozen["H_"+td.Pkg+"."+td.Type+"."+f] = true
+			}
+		}
+	}
+	return w.frozen[a]
+}
+
 func fatalf(f string, a ...interface{}) {
 	fmt.Fprintf(os.Stderr, "gvc: "+f+"\n", a...)
 	os.Exit(2)
+}
+
+// implsComparable: every named type of the program implementing the interface (as T or *T) is comparable.
+func (w *World) implsComparable(it types.Type) bool {
+	key := "cmp:" + types.TypeString(it, nil)
+	if r, ok := w.cmpCache[key]; ok {
+		return r
+	}
+	if w.cmpCache == nil {
+		w.cmpCache = map[string]bool{}
+	}
+	res := true
+	var bad []string
+	for _, t := range w.implementersAll(it) {
+		if !types.Comparable(t) {
+			res = false
+			bad = append(bad, types.TypeString(t, nil))
+		}
+	}
+	if dbgOn && !res {
+		fmt.Printf("DBG uncomparable implementers of %s: %v\n", it, bad)
+	}
+	w.cmpCache[key] = res
+	return res
+}
+
+// implementersAll ignores iface-types declarations (all named types of the program).
+func (w *World) implementersAll(it types.Type) []types.Type {
+	iface, ok := it.Underlying().(*types.Interface)
+	if !ok {
+		return nil
+	}
+	w.implementers(types.NewInterfaceType(nil, nil)) // fills allNamed
+	var res []types.Type
+	for _, t := range w.allNamed {
+		if nt, ok := t.(*types.Named); ok && nt.TypeParams() != nil && nt.TypeParams().Len() > 0 {
+			continue
+		}
+		if types.Implements(t, iface) {
+			res = append(res, t, types.NewPointer(t))
+		} else if pt := types.NewPointer(t); types.Implements(pt, iface) {
+			res = append(res, pt)
+		}
+	}
+	return res
 }
